@@ -25,6 +25,11 @@ from .zoneinfo import timezone
 # Logging instance for reporting debug info
 LOG = logging.getLogger(__name__)
 
+# The grammar leans on Or (longest match), which parses the winning
+# alternative a second time: without memoisation the cost of nested lists,
+# dicts and grids grows exponentially with the nesting depth.
+pp.ParserElement.enablePackrat()
+
 # All grids start with the version string.
 VERSION_RE = re.compile(r'^ver:"(([^"\\]|\\[\\"bfnrt$])+)"')
 NEWLINE_RE = re.compile(r'\r?\n')
